@@ -276,7 +276,8 @@ def azimuthal_clause(cl, rng, n, replay):
         f = np.geomspace(0.2, 20, m)
         naz = int(rng.integers(1, 4))
         As = [np.array([gen_curve(rng, m) for _ in range(int(rng.integers(1, 4)))]) for _ in range(naz)]
-        h = hvsrpy.HvsrAzimuthal([hvsrpy.HvsrTraditional(f, A) for A in As], list(np.linspace(0, 150, naz)))
+        originals = [hvsrpy.HvsrTraditional(f, A) for A in As]
+        h = hvsrpy.HvsrAzimuthal(originals, list(np.linspace(0, 150, naz)))
         hist = []
         for step in range(int(rng.integers(1, 4))):
             r = gen_range(rng, f)
@@ -285,6 +286,13 @@ def azimuthal_clause(cl, rng, n, replay):
             hist.append(r)
             h.update_peaks_bounded(search_range_in_hz=r)
             cl.case((m, naz, tuple(hist), j))
+            # the per-azimuth results the azimuthal object was built from are objects of their own: they still report the peaks of *their* (full) range
+            for ai, (o, A) in enumerate(zip(originals, As)):
+                if tuple(o._search_range_in_hz) != (None, None) or not _check_traditional(cl, o, f, A, (None, None), "hvsrpy.hvsr_azimuthal.HvsrAzimuthal.__init__",
+                                                                                           dict(azimuth_index=ai, history=list(hist), note="original object after the azimuthal object was updated")):
+                    if not cl.failures:
+                        cl.fail("hvsrpy.hvsr_azimuthal.HvsrAzimuthal.__init__", "a peak-range update of the azimuthal object changed the object it was built from", signature="azimuthal:shared-with-original")
+                    return
             for ai, (hv, A) in enumerate(zip(h.hvsrs, As)):
                 if not _check_traditional(cl, hv, f, A, r, "hvsrpy.hvsr_azimuthal.HvsrAzimuthal.update_peaks_bounded", dict(azimuth_index=ai, history=list(hist))):
                     return
